@@ -42,6 +42,9 @@ type Config struct {
 	InitBudget       int
 	NoInitCache      bool
 	Workers          int
+	// Concrete: translator validation mode. Every zz nondeterministic value is the constant named
+	// here (missing names are 0), so the entry runs on one concrete path like the native replay does.
+	Concrete map[string]*big.Int
 }
 
 type Obligation struct {
@@ -96,6 +99,9 @@ type EntryResult struct {
 	Bounds       map[string]int     `json:"bounds"`
 	EngineError  string             `json:"engine_error,omitempty"`
 	Workers      int                `json:"workers"`
+	// concrete (translator validation) mode only
+	ConcreteFailed      []string `json:"concrete_failed,omitempty"`
+	ConcreteNonConcrete []string `json:"concrete_nonconcrete,omitempty"`
 }
 
 // worker: one explorer thread with its own solver processes. Paths are independent given their
